@@ -22,139 +22,6 @@ set_option linter.unusedVariables false
 namespace HalmosVerif.Lemmas.Sevm
 open HalmosVerif.Model HalmosVerif.Model.Sevm HalmosVerif.Spec HalmosVerif.Lemmas.Word
 
-/-- the concrete location of a cell (Solidity layout): `m[key]` for the mapping at the slot `base` (kind 2) is
-    Keccak-256 of key ‖ base; `a[i]` for the dynamic array at `base` (kind 1; the key term denotes `0 + i`) is
-    Keccak-256 of base, plus `i` -/
-def hLoc (p : Evm.Params) (kind key base : Nat) : Nat :=
-  if kind = 2 then p.keccak (Evm.natToBytes 32 key ++ Evm.natToBytes 32 base) % Evm.W
-  else (p.keccak (Evm.natToBytes 32 base) + key) % Evm.W
-
-/-- the flat storage a chain of writes (newest first) describes over empty storage -/
-def hFlat (I : Interp) (p : Evm.Params) : List HCell → Nat → Nat → Nat
-  | [], _, _ => 0
-  | c :: rest, a, slot =>
-    if c.acct = a ∧ hLoc p c.kind (c.key.eval I) c.base = slot then c.val.eval I else hFlat I p rest a slot
-
-/-- keys and values are well-formed 256-bit terms -/
-def HChainWF (chain : List HCell) : Prop :=
-  ∀ c ∈ chain, c.key.WF ∧ c.key.width = 256 ∧ c.val.WF ∧ c.val.width = 256
-
-/-- no other cell written on the path lies at the location of `m[k]` (mapping at `base` of `acct`): a cell of the
-    same account at the same location is the same cell -/
-def HNoColl (I : Interp) (p : Evm.Params) (chain : List HCell) (acct kind base : Nat) (k : T) : Prop :=
-  ∀ c ∈ chain, c.acct = acct → hLoc p c.kind (c.key.eval I) c.base = hLoc p kind (k.eval I) base →
-    c.kind = kind ∧ c.base = base ∧ c.key.eval I = k.eval I
-
-section
-variable {I : Interp} {p : Evm.Params} {s : Simp} {o : Oracle}
-
-theorem HChainWF.tail {c : HCell} {rest : List HCell} (h : HChainWF (c :: rest)) : HChainWF rest :=
-  fun x hx => h x (List.mem_cons_of_mem _ hx)
-
-theorem HNoColl.tail {c : HCell} {rest : List HCell} {acct kind base : Nat} {k : T}
-    (h : HNoColl I p (c :: rest) acct kind base k) : HNoColl I p rest acct kind base k :=
-  fun x hx => h x (List.mem_cons_of_mem _ hx)
-
-/-- the head cell is the one read exactly when it is a cell of the same mapping with an equal key -/
-theorem hcell_hit {c : HCell} {rest : List HCell} {acct kind base : Nat} {k : T}
-    (hn : HNoColl I p (c :: rest) acct kind base k) :
-    (c.acct = acct ∧ hLoc p c.kind (c.key.eval I) c.base = hLoc p kind (k.eval I) base) ↔
-      (c.acct = acct ∧ c.kind = kind ∧ c.base = base ∧ c.key.eval I = k.eval I) := by
-  constructor
-  · rintro ⟨h1, h2⟩
-    exact ⟨h1, hn c (List.mem_cons_self ..) h1 h2⟩
-  · rintro ⟨h1, h2, h3, h4⟩
-    exact ⟨h1, by rw [h2, h3, h4]⟩
-
-/-- `Select` on the array after the writes of the chain, the empty array reading 0 at the key (the emptiness condition
-    `load` appends) -/
-theorem hIte_ok : ∀ {chain : List HCell} {acct kind base : Nat} {k : T}, HChainWF chain → k.WF → k.width = 256 →
-    HNoColl I p chain acct kind base k → I.uf1 (hEmptyName acct kind base) 256 (k.eval I) % 2 ^ 256 = 0 →
-    (hIte acct kind base chain k).WF ∧ (hIte acct kind base chain k).width = 256 ∧
-      (hIte acct kind base chain k).eval I = hFlat I p chain acct (hLoc p kind (k.eval I) base)
-  | [], acct, kind, base, k, _, hk, _, _, he => ⟨⟨by decide, hk⟩, rfl, by simp only [hIte, T.eval, hFlat]; exact he⟩
-  | c :: rest, acct, kind, base, k, hc, hk, hkw, hn, he => by
-    obtain ⟨a1, a2, a3, a4⟩ := hc c (List.mem_cons_self ..)
-    obtain ⟨b1, b2, b3⟩ := hIte_ok hc.tail hk hkw hn.tail he (chain := rest)
-    have hhit := hcell_hit hn
-    simp only [hIte, hFlat]
-    by_cases hm : c.acct = acct ∧ c.kind = kind ∧ c.base = base
-    · rw [if_pos hm]
-      refine ⟨⟨⟨hk, a1, by rw [hkw, a2]⟩, a3, b1, by rw [a4, b2]⟩, a4, ?_⟩
-      simp only [T.eval, B.eval, CmpOp.eval, b3]
-      by_cases e : k.eval I = c.key.eval I
-      · have : c.acct = acct ∧ hLoc p c.kind (c.key.eval I) c.base = hLoc p kind (k.eval I) base :=
-          hhit.2 ⟨hm.1, hm.2.1, hm.2.2, e.symm⟩
-        simp [e, this]
-      · have : ¬ (c.acct = acct ∧ hLoc p c.kind (c.key.eval I) c.base = hLoc p kind (k.eval I) base) :=
-          fun h => e (hhit.1 h).2.2.2.symm
-        simp [e, this]
-    · rw [if_neg hm]
-      have : ¬ (c.acct = acct ∧ hLoc p c.kind (c.key.eval I) c.base = hLoc p kind (k.eval I) base) :=
-        fun h => hm ⟨(hhit.1 h).1, (hhit.1 h).2.1, (hhit.1 h).2.2.1⟩
-      rw [if_neg this]
-      exact ⟨b1, b2, b3⟩
-
-/-- **load after stores**: `Exec.select` on the array of the mapping denotes the value the flat storage holds at the
-    location of the cell -/
-theorem hSelect_ok (hs : SimpSound s) (ho : OracleSound o) {path : List B} (hsat : Sat I path) :
-    ∀ {chain : List HCell} {acct kind base : Nat} {k : T}, HChainWF chain → k.WF → k.width = 256 →
-    HNoColl I p chain acct kind base k → I.uf1 (hEmptyName acct kind base) 256 (k.eval I) % 2 ^ 256 = 0 →
-    (hSelect s o path acct kind base chain k).WF ∧ (hSelect s o path acct kind base chain k).width = 256 ∧
-      (hSelect s o path acct kind base chain k).eval I = hFlat I p chain acct (hLoc p kind (k.eval I) base)
-  | [], acct, kind, base, k, _, _, _, _, _ => ⟨(by decide : 0 < 256), rfl, rfl⟩
-  | c :: rest, acct, kind, base, k, hc, hk, hkw, hn, he => by
-    obtain ⟨a1, a2, a3, a4⟩ := hc c (List.mem_cons_self ..)
-    have ih := hSelect_ok hs ho hsat hc.tail hk hkw hn.tail he (chain := rest)
-    have hhit := hcell_hit hn
-    have hcwf : (B.cmp .eq k c.key).WF := ⟨hk, a1, by rw [hkw, a2]⟩
-    simp only [hSelect, hFlat]
-    by_cases hm : c.acct = acct ∧ c.kind = kind ∧ c.base = base
-    · rw [if_pos hm]
-      split
-      · rename_i hke
-        have : c.acct = acct ∧ hLoc p c.kind (c.key.eval I) c.base = hLoc p kind (k.eval I) base :=
-          hhit.2 ⟨hm.1, hm.2.1, hm.2.2, by rw [hke]⟩
-        rw [if_pos this]
-        exact ⟨a3, a4, rfl⟩
-      · split
-        · rename_i hu
-          have hne := exCheck_sound hs ho hcwf hu I hsat
-          simp only [B.eval, CmpOp.eval, beq_eq_false_iff_ne, ne_eq] at hne
-          have : ¬ (c.acct = acct ∧ hLoc p c.kind (c.key.eval I) c.base = hLoc p kind (k.eval I) base) :=
-            fun h => hne (hhit.1 h).2.2.2.symm
-          rw [if_neg this]
-          exact ih
-        · split
-          · rename_i hu
-            have heq := exCheck_sound hs ho (c := .not (.cmp .eq k c.key)) hcwf hu I hsat
-            simp only [B.eval, CmpOp.eval, Bool.not_eq_false', beq_iff_eq] at heq
-            have : c.acct = acct ∧ hLoc p c.kind (c.key.eval I) c.base = hLoc p kind (k.eval I) base :=
-              hhit.2 ⟨hm.1, hm.2.1, hm.2.2, heq.symm⟩
-            rw [if_pos this]
-            exact ⟨a3, a4, rfl⟩
-          · have := hIte_ok hc hk hkw hn he
-            simpa only [hFlat] using this
-    · rw [if_neg hm]
-      have : ¬ (c.acct = acct ∧ hLoc p c.kind (c.key.eval I) c.base = hLoc p kind (k.eval I) base) :=
-        fun h => hm ⟨(hhit.1 h).1, (hhit.1 h).2.1, (hhit.1 h).2.2.1⟩
-      rw [if_neg this]
-      exact ih
-
-/-- what a store does to the flat storage: the location of the cell holds the value, every other slot is untouched -/
-theorem hFlat_store (chain : List HCell) (c : HCell) (a slot : Nat) :
-    hFlat I p (c :: chain) a slot =
-      if c.acct = a ∧ hLoc p c.kind (c.key.eval I) c.base = slot then c.val.eval I else hFlat I p chain a slot := rfl
-
-/-- the value just stored is read back (whatever the solver answers) -/
-theorem hSelect_store (hs : SimpSound s) (ho : OracleSound o) {path : List B} (hsat : Sat I path)
-    {chain : List HCell} {acct kind base : Nat} {k v : T}
-    (hc : HChainWF ({ acct, kind, base, key := k, val := v } :: chain)) (hk : k.WF) (hkw : k.width = 256) :
-    (hSelect s o path acct kind base ({ acct, kind, base, key := k, val := v } :: chain) k).eval I = v.eval I := by
-  simp only [hSelect, and_self, if_true]
-
-end
-
 /-! ### the location term -/
 
 section
